@@ -175,6 +175,49 @@ class Capability:
                             changed = True
 
 
+def writer_params(prog, results: Dict[str, Result]) -> Set[Tuple[str, str]]:
+    """(function, parameter) pairs through which a path is *written*: the
+    function has a file-creating call (or os.replace / rename target) whose
+    path mentions the parameter, or hands the parameter to such a pair"""
+    W: Set[Tuple[str, str]] = set()
+    for q, res in results.items():
+        f = res.func
+        names = set(f.params + f.kwonly)
+        sinks = [p for (_e, p, _k) in find_sinks(res)]
+        for e in res.of_kind("call"):
+            if (e.data.get("name") or "") in ("os.replace", "os.rename",
+                                              "shutil.move") and \
+                    len(e.data["args"]) > 1:
+                sinks.append(e.data["args"][1])
+            if (e.data.get("name") or "") in (".replace", ".rename") and \
+                    e.data["args"]:
+                sinks.append(e.data["args"][0])
+        for p_ in sinks:
+            for x in p_.walk():
+                if x.op == "param" and x.args[0] in names:
+                    W.add((q, x.args[0]))
+    changed = True
+    while changed:
+        changed = False
+        for q, res in results.items():
+            f = res.func
+            names = set(f.params + f.kwonly)
+            for e in res.of_kind("call"):
+                tgt = e.data.get("target")
+                b = e.data.get("bound") or {}
+                if tgt is None:
+                    continue
+                for pn, val in b.items():
+                    if (tgt.qualname, pn) not in W:
+                        continue
+                    for x in val.walk():
+                        if x.op == "param" and x.args[0] in names and \
+                                (q, x.args[0]) not in W:
+                            W.add((q, x.args[0]))
+                            changed = True
+    return W
+
+
 def atomic_idiom(res: Result, target_param: str) -> Tuple[bool, str, dict]:
     """does function `res` implement write-temp-then-replace for
     target_param?"""
@@ -390,6 +433,8 @@ def check(ctx):
     ctx.analysed_fn(upd.qualname)
     r = results[upd.qualname]
 
+    WP = writer_params(prog, results)
+
     def writes_of(res: Result, fname: str) -> List[Event]:
         out = []
         for e in res.of_kind("call"):
@@ -398,7 +443,9 @@ def check(ctx):
             vals = list(b.values()) if tgt is not None else \
                 list(e.data["args"])
             is_writer = (tgt is not None and any(
-                (tgt.qualname, pn) in cap.params for pn in b)) or \
+                (tgt.qualname, pn) in WP and any(
+                    x.op == "global" and prot.get(x.args[0]) == fname
+                    for x in b[pn].walk()) for pn in b)) or \
                 any(e is s[0] for s in find_sinks(res))
             if not is_writer:
                 continue
@@ -413,8 +460,8 @@ def check(ctx):
     # the recorded version is not the current one
     ms = prog.module(SETTINGS_MOD)
     rs_ = Interp(prog, inline=lambda fn: fn.module.name == SETTINGS_MOD and
-                 fn.name in ("initialize_if_needed", "update_if_outdated"),
-                 auto_inline=False).run_module(ms)
+                 fn.name in ("initialize_if_needed", "update_if_outdated")
+                 ).run_module(ms)
 
     def upgrading(a: T):
         if a.op == "call" and tm.callee_name(a) in (
